@@ -30,6 +30,7 @@ inductive RunRes where
   | steps        -- step limit exceeded
   | stuck        -- no task left and END not reached ("no tasks to execute")
   | merge        -- two values reached one node in the same superstep (fan-in merge: not modelled)
+  | badPick      -- a branch condition returned a node that is not one of its end nodes (ordinary error)
   deriving DecidableEq, Repr, Inhabited
 
 def _root_.EinoV.Build.Runner.node (r : Runner) (k : Key) : Option Node := findNode r.nodes k
@@ -59,7 +60,7 @@ structure Code where
   pick : Key → Nat → Dyn → Key     -- (branch start, index among all branches, value) ↦ chosen end
 
 inductive Ev where
-  | pass | typeErr | panic
+  | pass | typeErr | panic | badPick
   deriving DecidableEq, Repr
 
 /-- the converter installed on the data connection `a → b` (if any) checks a value of
@@ -103,7 +104,10 @@ def _root_.EinoV.Build.Runner.branchTable (r : Runner) : List (Nat × BranchRec 
 def emit (im : Impl) (r : Runner) (c : Code) (k : Key) (d : Dyn) : List Ev × List Delivery :=
   let es := (r.dataEdges.filter (·.1 = k)).map (fun e => ({ src := k, dst := e.2, d } : Delivery))
   let bs := r.branchTable.filter (fun p => p.2.1.src = k)
-  let bevs := bs.map (fun p => arriveBranch im p.2.1.inTy p.2.2 d)
+  let bevs := bs.map (fun p =>
+    match arriveBranch im p.2.1.inTy p.2.2 d with
+    | .pass => if p.2.1.ends.contains (c.pick k p.1 d) then .pass else .badPick
+    | e => e)
   let bd := bs.filterMap (fun p =>
     if p.2.1.noData then none else some ({ src := k, dst := c.pick k p.1 d, d } : Delivery))
   let ds := es ++ bd
@@ -113,6 +117,7 @@ def worst : List Ev → Ev
   | [] => .pass
   | .panic :: _ => .panic
   | .typeErr :: es => (match worst es with | .panic => .panic | _ => .typeErr)
+  | .badPick :: es => (match worst es with | .pass => .badPick | e => e)
   | .pass :: es => worst es
 
 /-- one task: the node asserts its input, runs, and emits -/
@@ -149,6 +154,7 @@ def runLevels (im : Impl) (r : Runner) (c : Code) : Nat → List Delivery → Ru
     match worst evs with
     | .panic => .panic
     | .typeErr => .typeErr
+    | .badPick => .badPick
     | .pass =>
       match settle im r next with
       | some res => res
@@ -161,6 +167,7 @@ def runGraph (im : Impl) (r : Runner) (c : Code) (fuel : Nat) (d0 : Dyn) : RunRe
   match worst evs with
   | .panic => .panic
   | .typeErr => .typeErr
+  | .badPick => .badPick
   | .pass =>
     match settle im r ds with
     | some res => res
